@@ -8,6 +8,11 @@ reads as NaN), aligns the columns (intersection / union of the frames' column se
 reads as the neutral element of the operation; a Series or scalar is broadcast over the columns) and applies the plain Python
 scalar operator cell by cell. Lists fold left to right (sub_/div_: both sides are folded with +/* first).
 No pandas arithmetic is used by the oracle; pandas is only used to build the operands and to read index/columns/values.
+
+Round-4 generalisation (classes 11-20 of the builder brief): besides the `session` sub-check (state between calls, now also with comparisons, scalars among the
+operands and the caller's very list object handed over again) every sub-check draws, in a few percent of its cases each: numpy scalars, mixed index resolutions,
+intraday / 1us-apart stamps, unsorted short operands, operands on one shared index object, one object in two places, numeric column names, int64 cells beyond 2**53,
+the three ways of writing a call, a list of scalars as long as the series next to it, an empty companion list. The oracle is the same dictionary model throughout.
 """
 import datetime
 import json
@@ -19,34 +24,76 @@ from pv.core import Sub, Violation, call, check, short
 from pv.codec import D0
 
 ASSUMPTIONS = [
-    'indices are strictly increasing, duplicate-free daily DatetimeIndex objects (timeseries; pandas cannot reindex duplicate labels): short operands are subsets of 12 days '
+    'indices are duplicate-free DatetimeIndex objects (the statement\'s a[t] needs one row per t; pandas cannot reindex duplicate labels): short operands are subsets of 12 stamps '
     '(empty, identical, shifted, disjoint, windows, random masks, same length/first/last with another interior), a quarter of the cases has long operands of 64/65/100/128/300 '
-    'stamps with 0-4 stamps left out and a cell pattern of period 1-5',
+    'stamps with 0-4 stamps left out and a cell pattern of period 1-5. The rows of a short operand may be handed over in another than increasing order (the library logs a warning '
+    'and aligns by label all the same; formerly excluded) - the ORDER of the rows of a result is never asserted, only its set of stamps and the cell at every stamp',
+    'stamps: daily from 2000-01-03 in 3 cases out of 4; otherwise every 12 hours from 1999-12-28 12:00 (two stamps per calendar day, over 31 Dec / 1 Jan and 29 Feb 2000) or pairs of stamps '
+    'one microsecond apart from 2001-02-24 (over 28 Feb / 1 Mar). One case in seven mixes index resolutions (s / ms / us / ns; only us / ns where stamps are 1us apart, coarser ones cannot hold them)',
     'cells: floats from {NaN, 0.0, -0.0, -1.5, 1.0, 2.0, 2.5} (a quarter of the cases adds 0.1 and 1e16) or int64 from [-3, 6]; + - * min max comparisons are compared exactly '
     '(the oracle performs the same IEEE operations in the same left-to-right order), / pow mean with rel/abs 1e-12',
-    'frames have 2-3 distinct columns out of {a,b,c,d} or {a,ab,b,abc}; single-column frames ("pseudo-series", whose column name is ignored by design) are not generated',
+    'int64 cells beyond 2**53 (2**53, 2**53 + 1, 2**53 + 2 and negatives, compared as integers): only where the pointwise operation on the aligned operands is an int64 operation in pandas '
+    'itself, i.e. every timeseries of the case is int64, scalars are ints, index policy inner (an outer join turns a column with missing stamps into float64: pandas\' representation, '
+    'not fixed by the statement), add_/sub_ under columns=ij (the neutral element of a one-sided column is the float 0.0), comparisons, min_/max_; not for mul_ (int64 overflow), div_, pow_, '
+    'df_sum/df_mean (float results)',
+    'frames have 2-3 distinct columns out of {a,b,c,d}, {a,ab,b,abc} or the numbers {1,0,2,3} (labels that differ from the positions); single-column frames ("pseudo-series", whose column '
+    'name is ignored by design) and duplicate column labels (df_columns: "dataframe with non-unique columns are treated like arrays", the statement speaks of column SETS) are not generated; '
+    'int and str labels are not mixed in one case',
+    'scalars are Python ints / floats or (one in four) np.int64 / np.float64 of the same value; narrower numpy scalars (float32, int32) are not generated: numpy\'s promotion rules for them '
+    'would have to enter the oracle (np.float32(0.1) + 2.5 is a float32)',
     'every case holds at least one timeseries (all-scalar calls are plain arithmetic)',
     'result index / columns are compared as duplicate-free sets (the statement does not fix an order)',
     'frames sharing no column under columns="ij": only "the result has no cells" is asserted (the library returns an empty Series, the docstring of presync pins len == 0)',
     'lists whose intermediate result has fewer than two columns under columns="ij" are generated but not judged: KNOWN["narrow_intermediate"] (registered known finding) takes them out '
     'before the oracle and they are counted as excluded_known',
     'a scalar zero divisor may yield a NaN scalar (for frames: one NaN per column) instead of an all-NaN timeseries (div_(ts, 0) returns nan by design)',
-    'pow_: exponents are 0..3 / {0.0, 0.5, 1.0, 2.0, 3.0} / NaN (no negative exponents: 0**-1 is +inf by IEEE, int**-1 raises in numpy); oracle = C pow (math.pow; domain error -> NaN)',
+    'pow_: exponents are 0..3 / {0.0, 0.5, 1.0, 2.0, 3.0} / NaN (no negative exponents: 0**-1 is +inf by IEEE, int**-1 raises in numpy); oracle = C pow (math.pow; domain error -> NaN); '
+    'pow_(a, a) with one object on both sides is therefore not generated (cells may be negative)',
     'pow_ and the comparisons have no neutral element: under columns="oj" the cells of a column present on one side only are not asserted (column set and the other cells are)',
     'min_/max_: NaN-propagating (documented as reduced np.minimum/np.maximum); frames of one case have the same column set (possibly in a different order)',
-    'df_sum/df_mean/df_count are called with their default policies (join="oj", columns="oj") on homogeneous collections: all Series or all multi-column frames',
-    'commutativity is asserted for the binary form op(a, b) vs op(b, a) of add_ and mul_',
-    'policies are spelled ij/oj or inner/outer; the operands must be unchanged after the call (otherwise re-evaluating the same expression gives another result); '
-    'whether the result shares memory with an operand is not asserted (not part of the statement)',
+    'df_sum/df_mean/df_count are called with their default policies (join="oj", columns="oj"), either left out or spelled out (oj / outer, by keyword or positionally), on homogeneous '
+    'collections: all Series or all multi-column frames; the parameters method= and exc= are left at their defaults everywhere (the statement does not describe fill methods or other masks)',
+    'commutativity is asserted for the binary form op(a, b) vs op(b, a) of add_ and mul_ (results compared stamp by stamp, not in row order)',
+    'policies are spelled ij/oj or inner/outer; a call is written op(a, b, join=, columns=), op(a, b, join, None, columns) or op(a=, b=, join=, columns=); the operands must be unchanged '
+    'after the call, and so must the caller\'s LISTS of operands (otherwise re-evaluating the same expression gives another result; within a session a list with the same content is one list '
+    'object in every call and later calls are judged by its original content); whether the result shares memory with an operand is not asserted (not part of the statement)',
+    'object identity: operands may share one index object, and one object may take two places of the operand list (op(a, a), op([a, b, a])); the oracle judges them as the equal values they are',
+    'a side may be an empty list next to a list with all the operands (op([a, b], []), op([], [a, b])) for add_/mul_/min_/max_/df_*; not for sub_/div_, where an empty side leaves nothing to '
+    'subtract / divide by (the library raises TypeError; outside "tuples of 2..4 operands"). A list of k scalars next to a timeseries of k rows is k scalar operands (lists reduce left to right)',
+    'classes of the brief that do not apply: 16 (no user function is handed to the operators), 20 (lists of fill methods are not part of the statement), the decorator-object and exception-'
+    'formatting parts of 11 / 17, arrays / tuples as operands (18: the quantifier has Series, frames, scalars and lists of them), duplicate labels (15, see above)',
 ]
 
 NAN = float('nan')
 SHORT_N = 12                      # short operands live on the first 12 days of the axis
 AXIS_N = 340                      # long operands: 64 / 65 / 100 / 128 / 300 stamps starting at day 0..17
 LONG_NS = [64, 65, 100, 128, 300]
-AXIS = [datetime.datetime.fromordinal(D0) + datetime.timedelta(days=i) for i in range(AXIS_N)]
-POS = {t: i for i, t in enumerate(AXIS)}
-COLPOOLS = [['a', 'b', 'c', 'd'], ['a', 'ab', 'b', 'abc']]     # the second pool: names that are prefixes of one another
+
+
+def _mk_axis(mode):
+    """position -> timestamp. 'd': daily from Monday 2000-01-03; 'h12': every 12 hours from 1999-12-28 12:00 (two stamps per calendar day, the short range
+    runs over 31 Dec / 1 Jan, the long one over 29 Feb 2000); 'us': pairs of stamps ONE MICROSECOND apart (midnight and midnight + 1us) from 2001-02-24
+    (the short range runs over 28 Feb / 1 Mar of a non-leap year)"""
+    if mode == 'h12':
+        base = datetime.datetime(1999, 12, 28, 12)
+        return [base + datetime.timedelta(hours=12 * i) for i in range(AXIS_N)]
+    if mode == 'us':
+        base = datetime.datetime(2001, 2, 24)
+        return [base + datetime.timedelta(days=i // 2, microseconds=i % 2) for i in range(AXIS_N)]
+    return [datetime.datetime.fromordinal(D0) + datetime.timedelta(days=i) for i in range(AXIS_N)]
+
+
+AXES = {m: _mk_axis(m) for m in ('d', 'h12', 'us')}
+POSS = {m: {t: i for i, t in enumerate(ax)} for m, ax in AXES.items()}
+_AX = ['d']                       # the axis of the case that is running (spec['axis'])
+UNITS = {'d': ['s', 'ms', 'us', 'ns'], 'h12': ['s', 'ms', 'us', 'ns'], 'us': ['us', 'ns']}     # index resolutions that can hold every stamp of the axis
+COLPOOLS = [['a', 'b', 'c', 'd'], ['a', 'ab', 'b', 'abc'],     # the second pool: names that are prefixes of one another
+            [1, 0, 2, 3]]                                      # the third: numbers only, labels that differ from the positions
+BIG = 2 ** 53                     # ints from here on are not all exact as float64
+
+
+def _lab(p):
+    return AXES[_AX[0]][p].strftime('%m-%d' if _AX[0] == 'd' else '%m-%d %H:%M:%S.%f')
 
 
 class _Any(object):
@@ -66,6 +113,8 @@ _fcell_x = st.sampled_from(['nan', 0.0, -1.5, 1.0, 2.5, 0.1, 0.1, 1e16, 1.0, -0.
 _icell = st.integers(-3, 6).map(lambda i: 0 if i == -3 else i)   # 0 twice as likely
 _scalar = st.sampled_from([0, 0.0, 1, 2, -1, 2.5, -1.5, 'nan', 3])
 _scalar_x = st.sampled_from([0, 0.1, 1, 2, -1, 2.5, 1e16, 'nan', 3])
+_icell_big = st.sampled_from([BIG + 1, BIG, -(BIG + 1), 1, 0, BIG + 2, -1, BIG + 1])     # int64 cells; BIG + 1 is not a float64
+_scalar_big = st.sampled_from([0, 1, 2, -1, 3, BIG, BIG + 1])
 _exp_f = st.sampled_from([0.0, 0.5, 1.0, 2.0, 3.0, 'nan'])
 _exp_i = st.integers(0, 3)
 _policy = st.sampled_from(['ij', 'oj', 'ij', 'oj', 'inner', 'outer'])
@@ -159,36 +208,114 @@ def _first_ts(ops):
     return None
 
 
-def _first_long(ops):
+def _first_long_op(ops):
     for o in ops:
         if 'long' in o:
-            return o['long']
+            return o
     return None
+
+
+def _index_attrs(draw, o, ctx, anchor):
+    """resolution of the index (mixed within a case) and row order (a short operand may be given unsorted); an operand that shares the index OBJECT of
+    `anchor` takes the anchor's"""
+    if anchor is not None:
+        for k in ('unit', 'ord'):
+            if k in anchor:
+                o[k] = anchor[k]
+        return o
+    if ctx.get('units') and draw(st.integers(0, 2)) > 0:
+        o['unit'] = draw(st.sampled_from(UNITS[ctx.get('axis') or 'd']))
+    if ctx.get('unsorted') and 'idx' in o and len(o['idx']) >= 2 and draw(st.booleans()):
+        o['ord'] = draw(st.integers(1, 23))
+    return o
 
 
 def _ts(draw, kind, prev, ctx, cols=None, cellmode=None):
     """kind 's' or 'f'; prev: operands drawn so far; cellmode 'f' floats, 'i' ints, 'e' float exponents, 'ei' int exponents"""
-    cm = cellmode or draw(st.sampled_from(['f', 'f', 'f', 'i']))
-    cell = {'f': _fcell_x if ctx['inexact'] else _fcell, 'i': _icell, 'e': _exp_f, 'ei': _exp_i}[cm]
+    cm = cellmode or ('i' if ctx.get('bigint') else draw(st.sampled_from(['f', 'f', 'f', 'i'])))
+    cell = {'f': _fcell_x if ctx['inexact'] else _fcell, 'i': _icell_big if ctx.get('bigint') else _icell, 'e': _exp_f, 'ei': _exp_i}[cm]
     dt = 'i' if cm in ('i', 'ei') else 'f'
+    f = _first_ts(prev)
+    # identity: this operand is built on the very index OBJECT of an earlier operand (group 1: the first timeseries, group 2: the first long one)
+    share = bool(ctx.get('ident')) and f is not None and draw(st.integers(0, 2)) > 0
     if ctx['big'] and draw(st.integers(0, 2)) > 0:
-        L = _long_index(draw, _first_long(prev))
+        fl = _first_long_op(prev)
+        anchor = None
+        if share and fl is not None:
+            anchor = fl
+            L = dict(start=fl['long']['start'], n=fl['long']['n'], holes=list(fl['long']['holes']))
+        else:
+            L = _long_index(draw, None if fl is None else fl['long'])
         npat = draw(st.integers(1, 5))          # few distinct values, many ties
         if kind == 's':
             L['pat'] = [draw(cell) for _ in range(npat)]
-            return dict(k='s', dt=dt, long=L)
-        L['pat'] = [[draw(cell) for _ in cols] for _ in range(npat)]
-        return dict(k='f', dt=dt, cols=list(cols), long=L)
-    f = _first_ts(prev)
-    first = None if f is None else [i for i in _expand(f)['idx'] if i < SHORT_N]
-    idx = _index(draw, first)
+            o = dict(k='s', dt=dt, long=L)
+        else:
+            L['pat'] = [[draw(cell) for _ in cols] for _ in range(npat)]
+            o = dict(k='f', dt=dt, cols=list(cols), long=L)
+        if anchor is not None:
+            anchor['six'] = o['six'] = 2
+        return _index_attrs(draw, o, ctx, anchor)
+    anchor = None
+    if share and 'long' not in f:
+        anchor = f
+        idx = list(f['idx'])
+    else:
+        first = None if f is None else [i for i in _expand(f)['idx'] if i < SHORT_N]
+        idx = _index(draw, first)
     if kind == 's':
-        return dict(k='s', idx=idx, dt=dt, vals=[draw(cell) for _ in idx])
-    return dict(k='f', idx=idx, dt=dt, cols=list(cols), vals=[[draw(cell) for _ in cols] for _ in idx])
+        o = dict(k='s', idx=idx, dt=dt, vals=[draw(cell) for _ in idx])
+    else:
+        o = dict(k='f', idx=idx, dt=dt, cols=list(cols), vals=[[draw(cell) for _ in cols] for _ in idx])
+    if anchor is not None:
+        anchor['six'] = o['six'] = 1
+    return _index_attrs(draw, o, ctx, anchor)
 
 
-def _ctx(draw):
-    return dict(pool=draw(st.sampled_from([COLPOOLS[0], COLPOOLS[0], COLPOOLS[1]])), big=draw(st.integers(0, 3)) == 0, inexact=draw(st.integers(0, 3)) == 0)
+def _ctx(draw, bigint_ok=False):
+    """the switches of one case; every new switch is ON for the LARGEST drawn value, so that shrinking turns it off"""
+    c = dict(pool=draw(st.sampled_from([COLPOOLS[0], COLPOOLS[0], COLPOOLS[1], COLPOOLS[0], COLPOOLS[1], COLPOOLS[2]])),
+             big=draw(st.integers(0, 3)) == 0, inexact=draw(st.integers(0, 3)) == 0)
+    c['axis'] = draw(st.sampled_from(['d', 'd', 'd', 'd', 'd', 'd', 'h12', 'us']))
+    c['units'] = draw(st.integers(0, 6)) == 6           # index resolutions s / ms / us / ns mixed within the case
+    c['ident'] = draw(st.integers(0, 4)) == 4           # shared index objects, the same object passed twice
+    c['unsorted'] = draw(st.integers(0, 7)) == 7        # short operands given in another row order
+    c['bigint'] = bigint_ok and draw(st.integers(0, 11)) == 11
+    if c['bigint']:
+        c['inexact'] = False
+    return c
+
+
+def _c(draw, ctx):
+    """a scalar operand: a Python number or (one in four) the numpy scalar of the same value"""
+    o = dict(k='c', v=draw(_scalar_big if ctx.get('bigint') else _scalar_x if ctx['inexact'] else _scalar))
+    if draw(st.integers(0, 3)) == 3:
+        o['raw'] = 'np'
+    return o
+
+
+def _inner(draw):
+    return draw(st.sampled_from(['ij', 'inner']))
+
+
+def _identity(draw, ops, ctx):
+    """the same OBJECT passed twice: one timeseries operand takes a second place in the operand list (op(a, a), op([a, b, a]))"""
+    ts = [i for i, o in enumerate(ops) if o['k'] != 'c']
+    if not ctx.get('ident') or len(ops) < 2 or not ts or draw(st.integers(0, 2)) == 0:
+        return ops
+    if len(ops) >= 3 and ops[0]['k'] != 'c' and draw(st.integers(0, 2)) > 0:
+        i, j = 0, len(ops) - 1                 # op([a, b, a]): the first and the last operand are one object, another one stands between them
+    else:
+        i = draw(st.sampled_from(ts))
+        j = draw(st.sampled_from([p for p in range(len(ops)) if p != i]))
+    ops[i]['obj'] = 1
+    ops[j] = json.loads(json.dumps(ops[i]))
+    return ops
+
+
+def _style(draw):
+    """how the call is written: operands positional + policies by keyword; everything positional (a, b, join, None, columns); everything by keyword"""
+    return draw(st.sampled_from(['kw', 'kw', 'kw', 'kw', 'kw', 'kw', 'pos', 'named']))
 
 
 def _cols(draw, ctx):
@@ -208,7 +335,7 @@ def _operands(draw, n, ctx, allow_scalar=True, allow_frame=True, cols_fixed=None
         k = draw(st.sampled_from(kinds))
         prev = list(pre) + ops
         if k == 'c':
-            ops.append(dict(k='c', v=draw(_scalar_x if ctx['inexact'] else _scalar)))
+            ops.append(_c(draw, ctx))
         elif k == 's':
             ops.append(_ts(draw, 's', prev, ctx))
         else:
@@ -238,74 +365,111 @@ def _ensure_ts(draw, ops, ctx, allow_frame=True, cols=None):
     return ops
 
 
+def _small_ts(draw, ctx, k):
+    """a short Series / frame with exactly k rows (a window of the axis)"""
+    start = draw(st.integers(0, SHORT_N - k))
+    idx = list(range(start, start + k))
+    cell = _fcell_x if ctx['inexact'] else _fcell
+    if draw(st.booleans()):
+        return dict(k='s', idx=idx, dt='f', vals=[draw(cell) for _ in idx])
+    cols = _cols(draw, ctx)
+    return dict(k='f', idx=idx, dt='f', cols=cols, vals=[[draw(cell) for _ in cols] for _ in idx])
+
+
+def _empty_side(draw, spec, ops):
+    """op([a, b, ..], []) / op([], [a, b, ..]): a companion list without operands"""
+    if draw(st.booleans()):
+        spec.update(form='list', lhs=ops, rhs=[], lhs_list=True, rhs_list=True, special='empty_rhs')
+    else:
+        spec.update(form='list', lhs=[], rhs=ops, lhs_list=True, rhs_list=True, special='empty_lhs')
+    return spec
+
+
 @st.composite
 def _arith_case(draw):
-    op = draw(st.sampled_from(['add_', 'sub_', 'mul_', 'div_']))
-    join = draw(_policy)
-    columns = draw(_policy)
-    ctx = _ctx(draw)
+    ctx = _ctx(draw, bigint_ok=True)
+    op = draw(st.sampled_from(['add_', 'sub_'] if ctx['bigint'] else ['add_', 'sub_', 'mul_', 'div_']))
+    join = _inner(draw) if ctx['bigint'] else draw(_policy)
+    columns = _inner(draw) if ctx['bigint'] else draw(_policy)
     form = draw(st.sampled_from(['bin', 'bin', 'list', 'list', 'split']))
     if form == 'list' and op in ('sub_', 'div_'):
         form = 'split'
     profile = draw(st.sampled_from(['mixed', 'mixed', 'frames']))
+    base = dict(op=op, join=join, columns=columns, axis=ctx['axis'], style=_style(draw))
+    special = 0 if ctx['bigint'] else draw(st.integers(0, 24))
+    if special >= 24:
+        # a LIST OF SCALARS exactly as long as the timeseries next to it (1-3 rows): still a list of operands, not a vector
+        k = draw(st.integers(1, 3))
+        t = _small_ts(draw, ctx, k)
+        return dict(base, form='split', lhs=[t], rhs=[_c(draw, ctx) for _ in range(k)], lhs_list=draw(st.booleans()), rhs_list=True, special='scalar_list')
     if form == 'bin':
-        ops = _ensure_ts(draw, _operands(draw, 2, ctx, profile=profile), ctx)
+        ops = _identity(draw, _ensure_ts(draw, _operands(draw, 2, ctx, profile=profile), ctx), ctx)
         if op == 'div_' and ops[0]['k'] != 'c' and draw(st.integers(0, 5)) == 0:
             ops[1] = dict(k='c', v=draw(st.sampled_from([0, 0.0])))          # the scalar zero divisor
-        return dict(op=op, join=join, columns=columns, form=form, lhs=[ops[0]], rhs=[ops[1]], lhs_list=False, rhs_list=False)
+            if draw(st.integers(0, 3)) == 3:
+                ops[1]['raw'] = 'np'
+        return dict(base, form=form, lhs=[ops[0]], rhs=[ops[1]], lhs_list=False, rhs_list=False)
     n = draw(st.integers(2, 4))
     # the column sets of the frames of one reduced list are free: lists whose intermediate result has fewer than two columns
     # under columns='ij' are generated and taken out by KNOWN['narrow_intermediate'] (counted as excluded_known)
-    ops = _ensure_ts(draw, _operands(draw, n, ctx, profile=profile), ctx)
+    ops = _identity(draw, _ensure_ts(draw, _operands(draw, n, ctx, profile=profile), ctx), ctx)
+    if special >= 21 and op in ('add_', 'mul_'):
+        return _empty_side(draw, dict(base), ops)
     if form == 'list':
-        return dict(op=op, join=join, columns=columns, form=form, lhs=ops, rhs=None, lhs_list=True, rhs_list=False)
+        return dict(base, form=form, lhs=ops, rhs=None, lhs_list=True, rhs_list=False)
     nl = draw(st.integers(1, n - 1))
     lhs, rhs = ops[:nl], ops[nl:]
     lhs_list = True if len(lhs) > 1 else draw(st.booleans())
     rhs_list = True if len(rhs) > 1 else draw(st.booleans())
-    return dict(op=op, join=join, columns=columns, form=form, lhs=lhs, rhs=rhs, lhs_list=lhs_list, rhs_list=rhs_list)
+    return dict(base, form=form, lhs=lhs, rhs=rhs, lhs_list=lhs_list, rhs_list=rhs_list)
 
 
 @st.composite
 def _cmp_case(draw):
-    op = draw(st.sampled_from(['pow_', 'pow_', 'gt_', 'ge_', 'lt_', 'le_']))
-    join = draw(_policy)
+    ctx = _ctx(draw, bigint_ok=True)
+    op = draw(st.sampled_from(['gt_', 'ge_', 'lt_', 'le_'] if ctx['bigint'] else ['pow_', 'pow_', 'gt_', 'ge_', 'lt_', 'le_']))
+    join = _inner(draw) if ctx['bigint'] else draw(_policy)
     columns = draw(_policy)
-    ctx = _ctx(draw)
+    base = dict(op=op, join=join, columns=columns, axis=ctx['axis'], style=_style(draw))
     if op != 'pow_':
-        ops = _ensure_ts(draw, _operands(draw, 2, ctx, profile=draw(st.sampled_from(['mixed', 'mixed', 'frames']))), ctx)
-        return dict(op=op, join=join, columns=columns, a=ops[0], b=ops[1])
+        ops = _identity(draw, _ensure_ts(draw, _operands(draw, 2, ctx, profile=draw(st.sampled_from(['mixed', 'mixed', 'frames']))), ctx), ctx)
+        return dict(base, a=ops[0], b=ops[1])
     a = _operands(draw, 1, ctx)[0]
     kb = draw(st.sampled_from(['c', 's', 's', 'f']))
     cm = draw(st.sampled_from(['e', 'ei']))
     if kb == 'c':
         b = dict(k='c', v=draw(_exp_f if cm == 'e' else _exp_i))
+        if draw(st.integers(0, 3)) == 3:
+            b['raw'] = 'np'
     elif kb == 's':
         b = _ts(draw, 's', [a], ctx, cellmode=cm)
     else:
         b = _ts(draw, 'f', [a], ctx, _cols(draw, ctx), cellmode=cm)
     if a['k'] == 'c' and b['k'] == 'c':
         a = _ts(draw, 's', [], ctx)
-    return dict(op=op, join=join, columns=columns, a=a, b=b)
+    return dict(base, a=a, b=b)
 
 
 @st.composite
 def _minmax_case(draw):
+    ctx = _ctx(draw, bigint_ok=True)
     op = draw(st.sampled_from(['min_', 'max_']))
-    join = draw(_policy)
+    join = _inner(draw) if ctx['bigint'] else draw(_policy)
     columns = draw(_policy)
-    ctx = _ctx(draw)
     form = draw(st.sampled_from(['bin', 'list', 'split']))
     n = 2 if form == 'bin' else draw(st.integers(2, 4))
     cols = _cols(draw, ctx)
-    ops = _ensure_ts(draw, _operands(draw, n, ctx, cols_fixed=cols), ctx, cols=cols)
+    ops = _identity(draw, _ensure_ts(draw, _operands(draw, n, ctx, cols_fixed=cols), ctx, cols=cols), ctx)
+    base = dict(op=op, join=join, columns=columns, axis=ctx['axis'], style=_style(draw))
     if form == 'bin':
-        return dict(op=op, join=join, columns=columns, form=form, lhs=[ops[0]], rhs=[ops[1]], lhs_list=False, rhs_list=False)
+        return dict(base, form=form, lhs=[ops[0]], rhs=[ops[1]], lhs_list=False, rhs_list=False)
+    if not ctx['bigint'] and draw(st.integers(0, 24)) >= 23:
+        return _empty_side(draw, dict(base), ops)
     if form == 'list':
-        return dict(op=op, join=join, columns=columns, form=form, lhs=ops, rhs=None, lhs_list=True, rhs_list=False)
+        return dict(base, form=form, lhs=ops, rhs=None, lhs_list=True, rhs_list=False)
     nl = draw(st.integers(1, n - 1))
     lhs, rhs = ops[:nl], ops[nl:]
-    return dict(op=op, join=join, columns=columns, form=form, lhs=lhs, rhs=rhs,
+    return dict(base, form=form, lhs=lhs, rhs=rhs,
                 lhs_list=True if len(lhs) > 1 else draw(st.booleans()), rhs_list=True if len(rhs) > 1 else draw(st.booleans()))
 
 
@@ -323,12 +487,18 @@ def _agg_case(draw):
             ops.append(_ts(draw, 'f', ops, ctx, cols))
         else:
             ops.append(_ts(draw, 's', ops, ctx))
+    ops = _identity(draw, ops, ctx)
     form = draw(st.sampled_from(['list', 'list', 'split']))
+    # 'kw': no policy is passed (as documented); 'explicit': the default policies are spelled out (join / columns = oj or outer); 'pos'; 'named'
+    base = dict(op=op, axis=ctx['axis'], style=draw(st.sampled_from(['kw', 'kw', 'kw', 'kw', 'explicit', 'explicit', 'pos', 'named'])),
+                join=draw(st.sampled_from(['oj', 'outer'])), columns=draw(st.sampled_from(['oj', 'outer'])))
+    if draw(st.integers(0, 24)) >= 23:
+        return _empty_side(draw, dict(base), ops)
     if form == 'list':
-        return dict(op=op, form=form, lhs=ops, rhs=None, lhs_list=True, rhs_list=False)
+        return dict(base, form=form, lhs=ops, rhs=None, lhs_list=True, rhs_list=False)
     nl = draw(st.integers(1, n - 1))
     lhs, rhs = ops[:nl], ops[nl:]
-    return dict(op=op, form=form, lhs=lhs, rhs=rhs,
+    return dict(base, form=form, lhs=lhs, rhs=rhs,
                 lhs_list=True if len(lhs) > 1 else draw(st.booleans()), rhs_list=True if len(rhs) > 1 else draw(st.booleans()))
 
 
@@ -339,26 +509,93 @@ def _cellv(v):
 
 
 _SESSION = [None]      # while a session case runs: operand spec (json) -> the ONE object built for it, shared by all calls of the session
+_IDX = {}              # (group, stamps, resolution, row order) -> the ONE index object of the operands of that group (per case / per session)
+_OBJ = {}              # operand spec (json) -> the ONE object of an operand that takes several places of the operand list (per case)
+
+
+def _begin(spec):
+    """start of a case (a session is ONE case)"""
+    if _SESSION[0] is None:
+        _AX[0] = spec.get('axis') or 'd'
+        _IDX.clear()
+        _OBJ.clear()
+        _quiet()
+
+
+_QUIET = []
+
+
+def _quiet():
+    # is_ts logs a warning for every unsorted operand it looks at
+    if not _QUIET:
+        import logging
+        import pyg_base                                  # noqa: F401  (creates the logger)
+        logging.getLogger('pyg').setLevel(logging.ERROR)
+        _QUIET.append(1)
 
 
 def _build(o):
-    if _SESSION[0] is not None and o['k'] != 'c':
-        key = json.dumps(o, sort_keys=True)
-        if key not in _SESSION[0]:
-            _SESSION[0][key] = _build_fresh(o)
-        return _SESSION[0][key]
-    return _build_fresh(o)
+    if o['k'] == 'c':
+        return _build_fresh(o)
+    if _SESSION[0] is not None:
+        cache = _SESSION[0]
+    elif 'obj' in o:
+        cache = _OBJ
+    else:
+        return _build_fresh(o)
+    key = json.dumps(o, sort_keys=True)
+    if key not in cache:
+        cache[key] = _build_fresh(o)
+    return cache[key]
+
+
+def _row_order(n, ord_):
+    """the order in which the rows of a short operand are handed over: rotated by ord // 2, reversed when ord is odd"""
+    r = list(range(n))
+    if not ord_ or n < 2:
+        return r
+    k = (ord_ // 2) % n
+    r = r[k:] + r[:k]
+    return r[::-1] if ord_ % 2 else r
+
+
+def _is_unsorted(o):
+    n = len(o['idx'])
+    return _row_order(n, o.get('ord')) != list(range(n))
+
+
+def _idx_key(o):
+    return (o.get('six'), tuple(o['idx']), o.get('unit'), o.get('ord') if _is_unsorted(o) else None)
+
+
+def _build_index(o, order):
+    import pandas as pd
+
+    def fresh():
+        idx = pd.DatetimeIndex([AXES[_AX[0]][o['idx'][r]] for r in order])
+        return idx.as_unit(o['unit']) if o.get('unit') else idx
+    if not o.get('six'):
+        return fresh()
+    key = _idx_key(o)
+    if key not in _IDX:
+        _IDX[key] = fresh()
+    return _IDX[key]
 
 
 def _build_fresh(o):
+    import numpy as np
     import pandas as pd
     if o['k'] == 'c':
-        return _cellv(o['v'])
-    idx = pd.DatetimeIndex([AXIS[i] for i in o['idx']])
+        v = _cellv(o['v'])
+        if o.get('raw') == 'np':
+            return np.float64(v) if isinstance(v, float) else np.int64(v)
+        return v
+    order = _row_order(len(o['idx']), o.get('ord'))
+    idx = _build_index(o, order)
     dtype = 'int64' if o['dt'] == 'i' else 'float64'
     if o['k'] == 's':
-        return pd.Series([_cellv(v) for v in o['vals']], index=idx, dtype=dtype)
-    return pd.DataFrame({c: [_cellv(row[j]) for row in o['vals']] for j, c in enumerate(o['cols'])}, index=idx, columns=list(o['cols']), dtype=dtype)
+        return pd.Series([_cellv(o['vals'][r]) for r in order], index=idx, dtype=dtype)
+    return pd.DataFrame({c: [_cellv(o['vals'][r][j]) for r in order] for j, c in enumerate(o['cols'])}, index=idx, columns=list(o['cols']), dtype=dtype)
 
 
 def _model(o):
@@ -369,24 +606,62 @@ def _model(o):
     return ('f', list(o['cols']), {t: {c: _cellv(v) for c, v in zip(o['cols'], row)} for t, row in zip(o['idx'], o['vals'])})
 
 
+def _side(ops):
+    """the caller's list of operands; within a session a list with the same content is the same list OBJECT in every call"""
+    lst = [_build(o) for o in ops]
+    if _SESSION[0] is None:
+        return lst
+    key = 'L' + json.dumps(ops, sort_keys=True)
+    if key in _SESSION[0]:
+        _SESSION[0]['#lists_passed_again'] = _SESSION[0].get('#lists_passed_again', 0) + 1
+        return _SESSION[0][key]
+    _SESSION[0][key] = lst
+    return lst
+
+
 def _args(spec):
-    lhs = [_build(o) for o in spec['lhs']]
-    rhs = None if spec['rhs'] is None else [_build(o) for o in spec['rhs']]
-    a = lhs if spec['lhs_list'] else lhs[0]
+    """-> (positional operands of the call, the timeseries / scalar objects, the list containers handed over)"""
+    lhs = _side(spec['lhs'])
+    rhs = None if spec['rhs'] is None else _side(spec['rhs'])
+    conts = []
+    if spec['lhs_list']:
+        a = lhs
+        conts.append(lhs)
+    else:
+        a = lhs[0]
     if rhs is None:
-        return (a,), lhs
-    b = rhs if spec['rhs_list'] else rhs[0]
-    return (a, b), lhs + rhs
+        return (a,), list(lhs), conts
+    if spec['rhs_list']:
+        b = rhs
+        conts.append(rhs)
+    else:
+        b = rhs[0]
+    return (a, b), list(lhs) + list(rhs), conts
 
 
-def _snapshot(built):
-    return [_canon(x) for x in built]
+def _invoke(what, f, args, kw, style):
+    """the three ways of writing the same call"""
+    if style == 'pos':
+        return call(what, f, args[0], args[1] if len(args) > 1 else None, kw['join'], None, kw['columns'])
+    if style == 'named':
+        named = dict(a=args[0])
+        if len(args) > 1:
+            named['b'] = args[1]
+        named.update(kw)
+        return call(what, f, **named)
+    return call(what, f, *args, **kw)
 
 
-def _check_unchanged(what, built, before):
-    """re-evaluating the same expression must see the same operands: the call may not write into the caller's objects"""
-    for i, (x, b) in enumerate(zip(built, before)):
+def _snapshot(built, conts=()):
+    return [_canon(x) for x in built], [list(c) for c in conts]
+
+
+def _check_unchanged(what, built, before, conts=()):
+    """re-evaluating the same expression must see the same operands: the call may not write into the caller's objects - nor into the caller's lists"""
+    for i, (x, b) in enumerate(zip(built, before[0])):
         check(_canon(x) == b, '%s changed its operand number %s in place: it was %s and is now %s', what, i, b, _canon(x))
+    for c, b in zip(conts, before[1]):
+        check(len(c) == len(b) and all(x is y for x, y in zip(c, b)), "%s wrote into the caller's list of operands: it had %s elements and now has %s", what, len(b), len(c))
 
 
 # ----------------------------------------------------------------------------- reference model
@@ -492,6 +767,8 @@ FN = dict(add_=(f_add, 0.0), sub_=(f_sub, 0.0), mul_=(f_mul, 1.0), div_=(f_div, 
 def _cells_equal(got, exp, tol):
     if exp is ANY:
         return True
+    if isinstance(exp, int) and not isinstance(exp, bool) and not isinstance(got, bool) and isinstance(got, (int, _np().integer)):
+        return int(got) == exp        # integers are compared as integers (2**53 + 1 is not a float)
     try:
         g = float(got)
     except (TypeError, ValueError):
@@ -506,12 +783,23 @@ def _cells_equal(got, exp, tol):
     return g == e
 
 
+_NP = []
+
+
+def _np():
+    if not _NP:
+        import numpy
+        _NP.append(numpy)
+    return _NP[0]
+
+
 def _positions(index, what):
+    pos = POSS[_AX[0]]
     out = []
     for t in list(index):
         try:
             key = t.to_pydatetime() if hasattr(t, 'to_pydatetime') else t
-            p = POS.get(key)
+            p = pos.get(key)
         except Exception:
             p = None
         check(p is not None, '%s: result index holds %s, which is not a timestamp of any operand', what, t)
@@ -521,7 +809,7 @@ def _positions(index, what):
 
 
 def _days(ps):
-    return [AXIS[p].strftime('%m-%d') for p in sorted(ps)]
+    return [_lab(p) for p in sorted(ps)]
 
 
 def compare(res, exp, what, tol=None, no_inf=False, nan_scalar_ok=False):
@@ -545,8 +833,8 @@ def compare(res, exp, what, tol=None, no_inf=False, nan_scalar_ok=False):
         for i, p in enumerate(ps):
             g, e = vals[i], exp[1][p]
             if no_inf:
-                check(not (isinstance(g, (float, np.floating)) and abs(g) == math.inf), '%s: result holds %s at %s', what, g, AXIS[p].strftime('%m-%d'))
-            check(_cells_equal(g, e, tol), '%s: at %s expected %s, got %s', what, AXIS[p].strftime('%m-%d'), e, g)
+                check(not (isinstance(g, (float, np.floating)) and abs(g) == math.inf), '%s: result holds %s at %s', what, g, _lab(p))
+            check(_cells_equal(g, e, tol), '%s: at %s expected %s, got %s', what, _lab(p), e, g)
         return
     cols, rows = exp[1], exp[2]
     if not cols:
@@ -562,21 +850,32 @@ def compare(res, exp, what, tol=None, no_inf=False, nan_scalar_ok=False):
         for i, p in enumerate(ps):
             g, e = vals[i], rows[p][c]
             if no_inf:
-                check(not (isinstance(g, (float, np.floating)) and abs(g) == math.inf), '%s: result holds %s at %s, column %s', what, g, AXIS[p].strftime('%m-%d'), c)
-            check(_cells_equal(g, e, tol), '%s: at %s, column %s: expected %s, got %s', what, AXIS[p].strftime('%m-%d'), c, e, g)
+                check(not (isinstance(g, (float, np.floating)) and abs(g) == math.inf), '%s: result holds %s at %s, column %s', what, g, _lab(p), c)
+            check(_cells_equal(g, e, tol), '%s: at %s, column %s: expected %s, got %s', what, _lab(p), c, e, g)
 
 
-def _canon(res):
-    """result -> comparable plain structure (columns sorted), NaN as the token 'nan'"""
+def _canon(res, by_time=False):
+    """result -> comparable plain structure (columns sorted), NaN as the token 'nan'; by_time: rows in the order of their timestamps (the order
+    of the rows of a result is not fixed by the statement: an inner join of unsorted operands follows the left operand)"""
     import pandas as pd
 
     def tok(v):
+        if isinstance(v, (int, _np().integer)) and not isinstance(v, bool):
+            return int(v)
         v = float(v)
         return 'nan' if v != v else v
-    if isinstance(res, pd.DataFrame):
-        return ('f', sorted((str(c), [tok(v) for v in res[c].values]) for c in res.columns), [str(t) for t in res.index])
-    if isinstance(res, pd.Series):
-        return ('s', [tok(v) for v in res.values], [str(t) for t in res.index])
+    if isinstance(res, (pd.DataFrame, pd.Series)):
+        stamps = [str(t) for t in res.index]
+        order = sorted(range(len(stamps)), key=lambda i: (stamps[i], i)) if by_time else list(range(len(stamps)))
+        stamps = [stamps[i] for i in order]
+        if isinstance(res, pd.DataFrame):
+            cols = []
+            for j, c in enumerate(res.columns):
+                vals = res.iloc[:, j].values
+                cols.append((str(c), [tok(vals[i]) for i in order]))
+            return ('f', sorted(cols), stamps)
+        vals = res.values
+        return ('s', [tok(vals[i]) for i in order], stamps)
     return ('c', tok(res))
 
 
@@ -584,16 +883,18 @@ def _canon(res):
 
 def _desc_operand(o):
     if o['k'] == 'c':
-        return repr(_cellv(o['v']))
+        return ('np.%s(%r)' % ('float64' if isinstance(_cellv(o['v']), float) else 'int64', _cellv(o['v']))) if o.get('raw') == 'np' else repr(_cellv(o['v']))
     if len(o['idx']) > 14:
-        days = '%s..%s (%i stamps)' % (AXIS[o['idx'][0]].strftime('%m-%d'), AXIS[o['idx'][-1]].strftime('%m-%d'), len(o['idx']))
+        days = '%s..%s (%i stamps)' % (_lab(o['idx'][0]), _lab(o['idx'][-1]), len(o['idx']))
         vals = '%s...' % (o['vals'][:6],)
     else:
-        days = ','.join(AXIS[i].strftime('%d') for i in o['idx'])
+        days = ','.join(AXES[_AX[0]][i].strftime('%d') if _AX[0] == 'd' else _lab(i) for i in o['idx'])
         vals = '%s' % (o['vals'],)
+    tags = ''.join([' unit=%s' % o['unit'] if o.get('unit') else '', ' rows handed over in the order %s' % _row_order(len(o['idx']), o.get('ord')) if _is_unsorted(o) else '',
+                    ' index-object#%s' % o['six'] if o.get('six') else '', ' the-same-object#%s' % o['obj'] if o.get('obj') else ''])
     if o['k'] == 's':
-        return 'Series(%s @%s)' % (vals, days)
-    return 'Frame(%s %s @%s)' % (o['cols'], vals, days)
+        return 'Series(%s @%s%s)' % (vals, days, tags)
+    return 'Frame(%s %s @%s%s)' % (o['cols'], vals, days, tags)
 
 
 def _desc(spec, kw):
@@ -604,7 +905,8 @@ def _desc(spec, kw):
     if spec['rhs'] is not None:
         a += ', ' + side(spec['rhs'], spec['rhs_list'])
     k = ', '.join('%s=%r' % kv for kv in sorted(kw.items()))
-    return short('%s(%s%s)' % (spec['op'], a, ', ' + k if k else ''), 700)
+    style = {'pos': ' [written positionally: a, b, join, None, columns]', 'named': ' [operands by keyword a=, b=]'}.get(spec.get('style'), '')
+    return short('%s(%s%s)%s' % (spec['op'], a, ', ' + k if k else '', style), 700)
 
 
 def _classes(all_ops, extra, policies=()):
@@ -659,8 +961,10 @@ def _classes(all_ops, extra, policies=()):
     if any(set(x['cols']) == set(y['cols']) and list(x['cols']) != list(y['cols']) for i, x in enumerate(frames) for y in frames[i + 1:]):
         cls.append('same_columns_other_order')
     names = sorted(set(c for o in frames for c in o['cols']))
-    if any(x != y and y.startswith(x) for x in names for y in names):
+    if any(isinstance(x, str) and x != y and y.startswith(x) for x in names for y in names):
         cls.append('prefix_column_names')
+    if names and all(isinstance(x, int) for x in names):
+        cls.append('numeric_column_names')
     if any(o['k'] == 'c' for o in all_ops):
         cls.append('scalar')
     if any(o['k'] == 'c' and o['v'] == 0 for o in all_ops):
@@ -685,22 +989,64 @@ def _classes(all_ops, extra, policies=()):
         cls.append('inexact_values')
     if any(len(p) > 2 for p in policies):
         cls.append('spelled_out_policy')
+    # ---- classes 11-20 of the brief
+    if any(o['k'] == 'c' and o.get('raw') == 'np' for o in all_ops):
+        cls.append('numpy_scalar')
+    if any(isinstance(v, int) and not isinstance(v, bool) and abs(v) >= BIG for o in all_ops for v in cells(o)):
+        cls.append('int_beyond_2**53')
+    if len(set(o.get('unit') for o in ts)) > 1:
+        cls.append('mixed_index_units')
+    if any(_is_unsorted(o) for o in ts):
+        cls.append('unsorted_index')
+    if _AX[0] != 'd' and ts:
+        cls.append('intraday_stamps')
+        if _AX[0] == 'us':
+            cls.append('stamps_1us_apart')
+    objs = [json.dumps(o, sort_keys=True) for o in all_ops if o.get('obj')]
+    if len(objs) > len(set(objs)):
+        cls.append('same_object_twice')
+        if len(all_ops) >= 3 and all_ops[0].get('obj') and json.dumps(all_ops[0], sort_keys=True) == json.dumps(all_ops[-1], sort_keys=True):
+            cls.append('same_object_first_and_last')
+    distinct = {}
+    for o in ts:
+        if o.get('six'):
+            distinct.setdefault(_idx_key(o), set()).add(json.dumps(o, sort_keys=True))
+    if any(len(v) > 1 for v in distinct.values()):
+        cls.append('shared_index_object')           # two different timeseries built on ONE index object
+
+    def ixid(o):
+        return ('obj', json.dumps(o, sort_keys=True)) if o.get('obj') else ('six',) + _idx_key(o) if o.get('six') else None
+    if len(ts) >= 3 and ixid(ts[0]) is not None and ixid(ts[0]) == ixid(ts[-1]) and any(set(o['idx']) != set(ts[0]['idx']) for o in ts[1:-1]):
+        cls.append('first_and_last_on_one_index_object_other_between')
     return bool(partial_nz or diffcols), cls
 
 
 # ----------------------------------------------------------------------------- sub-check: add_ sub_ mul_ div_
 
+def _special_classes(spec, cls):
+    if spec.get('style') in ('pos', 'named'):
+        cls.append('call_written_positionally' if spec['style'] == 'pos' else 'operands_by_keyword')
+    if spec.get('style') == 'explicit':
+        cls.append('default_policies_spelled_out')
+    if spec.get('special') == 'scalar_list':
+        cls.append('scalar_list_as_long_as_the_series')
+    if spec.get('special') in ('empty_lhs', 'empty_rhs'):
+        cls.append('empty_list_companion')
+    return cls
+
+
 def run_arith(spec):
     import pyg_base
+    _begin(spec)
     spec = _norm(spec)
     op, join, columns = spec['op'], spec['join'], spec['columns']
     f = getattr(pyg_base, op)
     kw = dict(join=join, columns=columns)
-    args, built = _args(spec)
-    before = _snapshot(built)
+    args, built, conts = _args(spec)
+    before = _snapshot(built, conts)
     what = _desc(spec, kw)
-    res = call(what, f, *args, **kw)
-    _check_unchanged(what, built, before)
+    res = _invoke(what, f, args, kw, spec.get('style'))
+    _check_unchanged(what, built, before, conts)
     # ---- reference
     lm = [_model(o) for o in spec['lhs']]
     rm = [] if spec['rhs'] is None else [_model(o) for o in spec['rhs']]
@@ -722,12 +1068,13 @@ def run_arith(spec):
     extra = ['op=' + op, 'form=' + spec['form'], 'join=' + join[0] + 'j', 'columns=' + columns[0] + 'j']
     if op in ('add_', 'mul_') and spec['form'] == 'bin':
         res2 = call('swapped operands of ' + what, f, args[1], args[0], **kw)
-        c1, c2 = _canon(res), _canon(res2)
+        c1, c2 = _canon(res, by_time=True), _canon(res2, by_time=True)
         check(c1 == c2, '%s is not commutative: %s but with the operands swapped %s', what, short(c1, 400), short(c2, 400))
-        _check_unchanged(what, built, before)
+        _check_unchanged(what, built, before, conts)
         extra.append('commutativity_checked')
     all_ops = spec['lhs'] + (spec['rhs'] or [])
     nt, cls = _classes(all_ops, extra, (join, columns))
+    _special_classes(spec, cls)
     if flags.narrow_intermediate:
         cls.append('narrow_intermediate')      # generated inputs of this class are taken out by KNOWN before they get here
     if op == 'div_':
@@ -755,20 +1102,22 @@ def _has_zero_divisor(B):
 
 def run_cmp_pow(spec):
     import pyg_base
+    _begin(spec)
     spec = _norm(spec)
     op, join, columns = spec['op'], spec['join'], spec['columns']
     f = getattr(pyg_base, op)
     kw = dict(join=join, columns=columns)
-    s2 = dict(op=op, lhs=[spec['a']], rhs=[spec['b']], lhs_list=False, rhs_list=False)
-    args, built = _args(s2)
-    before = _snapshot(built)
+    s2 = dict(op=op, lhs=[spec['a']], rhs=[spec['b']], lhs_list=False, rhs_list=False, style=spec.get('style'))
+    args, built, conts = _args(s2)
+    before = _snapshot(built, conts)
     what = _desc(s2, kw)
-    res = call(what, f, *args, **kw)
-    _check_unchanged(what, built, before)
+    res = _invoke(what, f, args, kw, spec.get('style'))
+    _check_unchanged(what, built, before, conts)
     fn, neutral = FN[op]
     exp = m_bin(_model(spec['a']), _model(spec['b']), fn, join, columns, neutral)
     compare(res, exp, what, tol=1e-12 if op == 'pow_' else None)
     nt, cls = _classes([spec['a'], spec['b']], ['op=' + op, 'join=' + join[0] + 'j', 'columns=' + columns[0] + 'j'], (join, columns))
+    _special_classes(spec, cls)
     if op != 'pow_':
         outcomes = set()
         for v in (exp[1].values() if exp[0] == 's' else [x for row in exp[2].values() for x in row.values()] if exp[0] == 'f' else []):
@@ -783,36 +1132,41 @@ def run_cmp_pow(spec):
 
 def run_minmax(spec):
     import pyg_base
+    _begin(spec)
     spec = _norm(spec)
     op, join, columns = spec['op'], spec['join'], spec['columns']
     f = getattr(pyg_base, op)
     kw = dict(join=join, columns=columns)
-    args, built = _args(spec)
-    before = _snapshot(built)
+    args, built, conts = _args(spec)
+    before = _snapshot(built, conts)
     what = _desc(spec, kw)
-    res = call(what, f, *args, **kw)
-    _check_unchanged(what, built, before)
+    res = _invoke(what, f, args, kw, spec.get('style'))
+    _check_unchanged(what, built, before, conts)
     ms = [_model(o) for o in spec['lhs'] + (spec['rhs'] or [])]
     fn, neutral = FN[op]
     # min_/max_ align all operands at once: index = intersection/union over all timeseries, then fold
     exp = m_fold(ms, fn, join, columns, neutral)
     compare(res, exp, what)
     nt, cls = _classes(spec['lhs'] + (spec['rhs'] or []), ['op=' + op, 'form=' + spec['form'], 'join=' + join[0] + 'j', 'columns=' + columns[0] + 'j'], (join, columns))
-    return dict(nt=nt, cls=cls)
+    return dict(nt=nt, cls=_special_classes(spec, cls))
 
 
 # ----------------------------------------------------------------------------- sub-check: df_sum df_mean df_count
 
 def run_agg(spec):
     import pyg_base
+    _begin(spec)
     spec = _norm(spec)
     op = spec['op']
     f = getattr(pyg_base, op)
-    args, built = _args(spec)
-    before = _snapshot(built)
-    what = _desc(spec, {})
-    res = call(what, f, *args)
-    _check_unchanged(what, built, before)
+    args, built, conts = _args(spec)
+    before = _snapshot(built, conts)
+    style = spec.get('style') or 'kw'
+    # the statement is about the default policies: they are either left out or spelled out (join / columns = 'oj' or 'outer')
+    kw = {} if style == 'kw' else dict(join=spec.get('join', 'oj'), columns=spec.get('columns', 'oj'))
+    what = _desc(spec, kw)
+    res = _invoke(what, f, args, kw, style)
+    _check_unchanged(what, built, before, conts)
     ops = spec['lhs'] + (spec['rhs'] or [])
     ms = [_model(o) for o in ops]
     index = sorted(set(t for m in ms for t in m[-1]))
@@ -844,6 +1198,7 @@ def run_agg(spec):
         exp = ('s', {t: agg(t, None) for t in index})
     compare(res, exp, what, tol=1e-12 if op == 'df_mean' else None)
     nt, cls = _classes(ops, ['op=' + op, 'form=' + spec['form'], 'frames' if frames else 'series'])
+    _special_classes(spec, cls)
     cells = [v for row in exp[2].values() for v in row.values()] if frames else list(exp[1].values())
     if any((v == 0 and op == 'df_count') or _isnan(v) for v in cells):
         cls.append('cell_without_data')
@@ -857,9 +1212,10 @@ def run_agg(spec):
 @st.composite
 def _session_case(draw):
     """a pool of 3-4 Series (or frames over one column set) and 2-4 calls on ordered selections of them - the same objects every time -
-    half of the selections being prefixes / extensions of the previous call's; one join policy for the whole session in 3 cases out of 4"""
+    half of the selections being prefixes / extensions of the previous call's; one join policy for the whole session in 3 cases out of 4.
+    'container': the call hands over the very LIST object of the previous call (first with a companion, then on its own, or the other way round)"""
     ctx = _ctx(draw)
-    ctx['big'] = False
+    ctx['big'] = draw(st.integers(0, 7)) == 7
     frames = draw(st.integers(0, 3)) == 0
     n = draw(st.integers(3, 4))
     cols = _cols(draw, ctx)
@@ -867,10 +1223,40 @@ def _session_case(draw):
     for _ in range(n):
         pool.append(_ts(draw, 'f', pool, ctx, list(draw(st.permutations(cols)))) if frames else _ts(draw, 's', pool, ctx))
     join0 = draw(_policy)
-    calls, prev = [], None
+    calls, prev, prevcall = [], None, None
     for _ in range(draw(st.integers(2, 4))):
-        kind = draw(st.sampled_from(['arith', 'arith', 'agg', 'agg', 'minmax']))
-        how = draw(st.sampled_from(['prefix', 'prefix', 'extend', 'free', 'same'])) if prev else 'free'
+        kind = draw(st.sampled_from(['arith', 'arith', 'arith', 'agg', 'agg', 'agg', 'minmax', 'cmp']))
+        how = draw(st.sampled_from(['prefix', 'prefix', 'extend', 'free', 'same', 'container', 'container'])) if prev else 'free'
+        join = join0 if draw(st.integers(0, 3)) else draw(_policy)
+        columns = draw(_policy)
+        if how == 'container' and prevcall is not None and prevcall['call'].get('lhs_list') and all(o['k'] != 'c' for o in prevcall['call']['lhs']):
+            # the previous call's list of operands is handed over again: the same list object (see _side)
+            if kind == 'cmp':
+                kind = 'arith'
+            lhs = prevcall['call']['lhs']
+            lsel = prevcall['lsel']
+            had_rhs = prevcall['call']['rhs'] is not None
+            if kind == 'agg':
+                op = draw(st.sampled_from(['df_sum', 'df_mean', 'df_count']))
+            elif kind == 'minmax':
+                op = draw(st.sampled_from(['min_', 'max_']))
+            else:
+                op = draw(st.sampled_from(['add_', 'mul_', 'sub_', 'div_']))
+            alone = had_rhs or len(lsel) >= 4 or draw(st.integers(0, 3)) == 0
+            if alone and kind == 'arith':
+                op = draw(st.sampled_from(['add_', 'mul_']))
+            if alone:
+                rsel, rhs, rhs_list = [], None, False
+            else:
+                rest = [i for i in range(n) if i not in lsel] or list(range(n))
+                rsel = list(draw(st.permutations(rest)))[:draw(st.integers(1, max(1, min(len(rest), 4 - len(lsel)))))]
+                rhs = [pool[i] for i in rsel]
+                rhs_list = True if len(rhs) > 1 else draw(st.booleans())
+            c = dict(op=op, join=join, columns=columns, form='list' if rhs is None else 'split', lhs=lhs, rhs=rhs, lhs_list=True, rhs_list=rhs_list)
+            sel = lsel + rsel
+            calls.append(dict(kind=kind, sel=sel, lsel=lsel, call=c, container=True, after_companion=bool(had_rhs and alone)))
+            prev, prevcall = sel, calls[-1]
+            continue
         if how == 'prefix' and len(prev) >= 3:
             sel = prev[:draw(st.integers(2, len(prev) - 1))]
         elif how == 'extend' and len(prev) < n:
@@ -879,31 +1265,43 @@ def _session_case(draw):
             sel = list(prev)
         else:
             sel = list(draw(st.permutations(list(range(n)))))[:draw(st.integers(2, n))]
+        if kind == 'cmp':
+            sel = sel[:2]
         prev = sel
         ops = [pool[i] for i in sel]
-        join = join0 if draw(st.integers(0, 3)) else draw(_policy)
-        columns = draw(_policy)
-        if kind == 'agg':
+        lsel = list(sel)
+        if kind == 'cmp':
+            c = dict(op=draw(st.sampled_from(['gt_', 'ge_', 'lt_', 'le_'])), join=join, columns=columns, a=ops[0], b=ops[1])
+        elif kind == 'agg':
             c = dict(op=draw(st.sampled_from(['df_sum', 'df_mean', 'df_count'])), form='list', lhs=ops, rhs=None, lhs_list=True, rhs_list=False)
         else:
             op = draw(st.sampled_from(['add_', 'mul_', 'sub_', 'div_'] if kind == 'arith' else ['min_', 'max_']))
+            if draw(st.integers(0, 5)) == 5 and len(ops) < 4:
+                # a scalar among the timeseries: the timeseries operands of two calls are prefix-related, the operand lists are not
+                ops = list(ops)
+                ops.insert(draw(st.integers(0, len(ops))), _c(draw, ctx))
             if op in ('sub_', 'div_') or draw(st.booleans()):
                 nl = draw(st.integers(1, len(ops) - 1))
                 lhs, rhs = ops[:nl], ops[nl:]
+                lsel = sel[:len([o for o in lhs if o['k'] != 'c'])]
                 c = dict(op=op, join=join, columns=columns, form='split' if len(ops) > 2 else 'bin', lhs=lhs, rhs=rhs, lhs_list=len(lhs) > 1, rhs_list=len(rhs) > 1)
             else:
                 c = dict(op=op, join=join, columns=columns, form='list', lhs=ops, rhs=None, lhs_list=True, rhs_list=False)
-        calls.append(dict(kind=kind, sel=sel, call=c))
-    return dict(calls=calls)
+        calls.append(dict(kind=kind, sel=sel, lsel=lsel, call=c))
+        prevcall = calls[-1]
+    return dict(calls=calls, axis=ctx['axis'])
 
 
 def run_session(spec):
+    _SESSION[0] = None
+    _begin(spec)
     _SESSION[0] = {}
     try:
         rel = set()
         sels = [c['sel'] for c in spec['calls']]
+        sub = []
         for c in spec['calls']:
-            {'arith': run_arith, 'agg': run_agg, 'minmax': run_minmax}[c['kind']](c['call'])
+            sub.append({'arith': run_arith, 'agg': run_agg, 'minmax': run_minmax, 'cmp': run_cmp_pow}[c['kind']](c['call']))
         for a, b in zip(sels, sels[1:]):
             if a != b and (a[:len(b)] == b or b[:len(a)] == a):
                 rel.add('operands_prefix_of_previous_call' if len(b) < len(a) else 'operands_extend_previous_call')
@@ -913,9 +1311,18 @@ def run_session(spec):
         cls = ['calls=%i' % len(kinds)] + sorted(rel)
         if 'agg' in kinds and len(set(kinds)) > 1:
             cls.append('aggregation_and_operator_share_operands')
+        if 'cmp' in kinds:
+            cls.append('comparison_among_the_calls')
         pols = set(c['call'].get('join', 'oj')[0] for c in spec['calls'])
         if len(pols) == 1:
             cls.append('one_join_policy_throughout')
+        if _SESSION[0].get('#lists_passed_again'):
+            cls.append('same_list_object_passed_again')
+            if any(c.get('after_companion') for c in spec['calls']):
+                cls.append('list_first_with_companion_then_alone')
+        for lab in ('shared_index_object', 'scalar', 'long', 'mixed_index_units', 'unsorted_index', 'intraday_stamps', 'numeric_column_names'):
+            if any(lab in (r.get('cls') or ()) for r in sub):
+                cls.append(lab)
         return dict(nt=bool(rel - {'same_operands_again'}), cls=cls)
     finally:
         _SESSION[0] = None
@@ -950,36 +1357,60 @@ def _narrow_intermediate(spec):
 KNOWN = {'narrow_intermediate': _narrow_intermediate}
 
 
-_COMMON_RULE = ('operands: float/int Series and 2-3 column frames (names over {a,b,c,d} or {a,ab,b,abc}, free column order), scalars incl. 0 and NaN; short indices on 12 days, '
-                'a quarter of the cases with long operands (64/65/100/128/300 stamps, few distinct values) next to short ones; policies spelled ij/oj/inner/outer; '
-                'operands must be unchanged after the call. ')
+_COMMON_RULE = ('operands: float/int Series and 2-3 column frames (names over {a,b,c,d}, {a,ab,b,abc} or {1,0,2,3}, free column order), scalars incl. 0 and NaN (Python or numpy); short indices on 12 stamps, '
+                'a quarter of the cases with long operands (64/65/100/128/300 stamps, few distinct values) next to short ones; daily, 12-hourly or 1us-apart stamps, mixed index resolutions, unsorted short '
+                'operands, shared index objects and one object in two places in a few percent of the cases each; policies spelled ij/oj/inner/outer, calls written with keywords, positionally or with a=, b=; '
+                'operands and the lists holding them must be unchanged after the call. ')
+
+_NEW_FLOORS = {'numpy_scalar': 0.027, 'mixed_index_units': 0.012, 'unsorted_index': 0.01, 'intraday_stamps': 0.08, 'stamps_1us_apart': 0.035, 'same_object_twice': 0.02,
+               'shared_index_object': 0.011, 'numeric_column_names': 0.024, 'call_written_positionally': 0.03, 'operands_by_keyword': 0.03}
+
+
+def _floors(old, **more):
+    d = dict(old)
+    d.update(_NEW_FLOORS)
+    d.update(more)
+    return {k: v for k, v in d.items() if v is not None}
+
 
 SUBS = [
     Sub('arith', lambda tier: _arith_case(), run_arith, quick=2000, thorough=20000,
-        rule='add_/sub_/mul_/div_ on 2-4 operands; index policies x column policies; forms op(a,b), op([..]), op([..],[..]); ' + _COMMON_RULE +
+        rule='add_/sub_/mul_/div_ on 2-4 operands; index policies x column policies; forms op(a,b), op([..]), op([..],[..]), also op(ts, [k scalars]) with k = rows of ts and op([..], []); ' + _COMMON_RULE +
+             'int64 cells beyond 2**53 for add_/sub_ under inner policies. '
              'oracle: per-timestamp dictionary model folded left to right, neutral element for one-sided columns, zero divisor -> NaN and no inf, op(a,b)==op(b,a) for add_/mul_. '
              'non-trivial = partially overlapping indices with a NaN or 0 inside the overlap, or frames with differing column sets',
-        floor=0.2, class_floors={'neutral_element_used': 0.04, 'zero_divisor_cell': 0.05, 'commutativity_checked': 0.1, 'partial_overlap': 0.2,
-                                 'series_with_frame': 0.1, 'scalar': 0.15, 'empty_operand': 0.04, 'disjoint_indices': 0.05,
-                                 'long': 0.06, 'long_with_short': 0.02, 'long_with_long': 0.02, 'fingerprint_indices': 0.03, 'prefix_column_names': 0.05,
-                                 'same_columns_other_order': 0.015, 'falsy_scalar': 0.03, 'inexact_values': 0.08, 'spelled_out_policy': 0.2,
-                                 'empty_in_the_middle': 0.004, 'zero_scalar_divisor': 0.005}),
+        floor=0.2, class_floors=_floors({'neutral_element_used': 0.04, 'zero_divisor_cell': 0.05, 'commutativity_checked': 0.1, 'partial_overlap': 0.2,
+                                         'series_with_frame': 0.1, 'scalar': 0.15, 'empty_operand': 0.04, 'disjoint_indices': 0.05,
+                                         'long': 0.06, 'long_with_short': 0.02, 'long_with_long': 0.02, 'fingerprint_indices': 0.03, 'prefix_column_names': 0.05,
+                                         'same_columns_other_order': 0.015, 'falsy_scalar': 0.03, 'inexact_values': 0.08, 'spelled_out_policy': 0.2,
+                                         'empty_in_the_middle': 0.004, 'zero_scalar_divisor': 0.005},
+                                        **{'int_beyond_2**53': 0.025, 'same_object_twice': 0.035, 'numeric_column_names': 0.04, 'mixed_index_units': 0.02, 'unsorted_index': 0.014,
+                                           'scalar_list_as_long_as_the_series': 0.007, 'empty_list_companion': 0.009})),
     Sub('cmp_pow', lambda tier: _cmp_case(), run_cmp_pow, quick=1000, thorough=10000,
-        rule='pow_ (exponents 0..3, 0.5, NaN) and gt_/ge_/lt_/le_ on two operands; ' + _COMMON_RULE + 'oracle: the same alignment model with '
-             'math.pow / Python comparisons; cells of one-sided columns under columns=oj are not judged. non-trivial as in arith',
-        floor=0.2, class_floors={'both_outcomes': 0.15, 'partial_overlap': 0.2, 'op=pow_': 0.2, 'long': 0.06, 'fingerprint_indices': 0.01, 'spelled_out_policy': 0.2}),
+        rule='pow_ (exponents 0..3, 0.5, NaN) and gt_/ge_/lt_/le_ on two operands; ' + _COMMON_RULE + 'int64 cells beyond 2**53 for the comparisons under the inner index policy. '
+             'oracle: the same alignment model with math.pow / Python comparisons; cells of one-sided columns under columns=oj are not judged. non-trivial as in arith',
+        floor=0.2, class_floors=_floors({'both_outcomes': 0.15, 'partial_overlap': 0.2, 'op=pow_': 0.2, 'long': 0.06, 'fingerprint_indices': 0.01, 'spelled_out_policy': 0.2},
+                                        **{'int_beyond_2**53': 0.03, 'numeric_column_names': 0.035})),
     Sub('minmax', lambda tier: _minmax_case(), run_minmax, quick=1000, thorough=10000,
-        rule='min_/max_ on 2-4 operands (frames of one case have one column set), forms (a,b), ([..]), ([..],[..]); ' + _COMMON_RULE + 'oracle: NaN-propagating '
-             'min/max on the aligned cells. non-trivial = partially overlapping indices with a NaN or 0 inside the overlap',
-        floor=0.2, class_floors={'partial_overlap': 0.25, 'series_with_frame': 0.1, 'long': 0.06, 'fingerprint_indices': 0.03, 'same_columns_other_order': 0.05,
-                                 'spelled_out_policy': 0.2}),
+        rule='min_/max_ on 2-4 operands (frames of one case have one column set), forms (a,b), ([..]), ([..],[..]), ([..],[]); ' + _COMMON_RULE + 'int64 cells beyond 2**53 under the inner index policy. '
+             'oracle: NaN-propagating min/max on the aligned cells. non-trivial = partially overlapping indices with a NaN or 0 inside the overlap',
+        floor=0.2, class_floors=_floors({'partial_overlap': 0.25, 'series_with_frame': 0.1, 'long': 0.06, 'fingerprint_indices': 0.03, 'same_columns_other_order': 0.05,
+                                         'spelled_out_policy': 0.2},
+                                        **{'int_beyond_2**53': 0.023, 'mixed_index_units': 0.018, 'unsorted_index': 0.015, 'same_object_twice': 0.029, 'same_object_first_and_last': 0.003,
+                                           'first_and_last_on_one_index_object_other_between': 0.0015, 'shared_index_object': 0.022, 'empty_list_companion': 0.008})),
     Sub('session', lambda tier: _session_case(), run_session, quick=800, thorough=8000,
-        rule='a pool of 3-4 Series (a quarter of the cases: frames over one column set) built ONCE, then 2-4 calls of add_/sub_/mul_/div_/min_/max_/df_sum/df_mean/df_count on ordered '
-             'selections of those same objects (half of them a prefix or an extension of the previous selection), mostly under one join policy; every call is judged by the oracle '
-             'of its own sub-check (pointwise model on the aligned operands), so a result may not depend on what was computed before. non-trivial = two consecutive calls whose operand lists are prefix-related',
-        floor=0.2, class_floors={'operands_prefix_of_previous_call': 0.15, 'operands_extend_previous_call': 0.1, 'aggregation_and_operator_share_operands': 0.2, 'one_join_policy_throughout': 0.2}),
+        rule='a pool of 3-4 Series (a quarter of the cases: frames over one column set; one session in eight with long operands) built ONCE, then 2-4 calls of add_/sub_/mul_/div_/min_/max_/gt_/ge_/lt_/le_/'
+             'df_sum/df_mean/df_count on ordered selections of those same objects (half of them a prefix or an extension of the previous selection, a scalar among them now and then; two in seven '
+             'hand over the very list object of the previous call, first with a companion and then alone or the other way round), mostly under one join policy; every call is judged by the oracle '
+             'of its own sub-check (pointwise model on the aligned operands, a list by its original content), so a result may not depend on what was computed before. non-trivial = two consecutive calls whose operand lists are prefix-related',
+        floor=0.2, class_floors={'operands_prefix_of_previous_call': 0.15, 'operands_extend_previous_call': 0.1, 'aggregation_and_operator_share_operands': 0.2, 'one_join_policy_throughout': 0.2,
+                                 'same_list_object_passed_again': 0.18, 'list_first_with_companion_then_alone': 0.017, 'comparison_among_the_calls': 0.07, 'scalar': 0.04,
+                                 'shared_index_object': 0.045, 'mixed_index_units': 0.03, 'unsorted_index': 0.02, 'intraday_stamps': 0.085, 'long': 0.03, 'numeric_column_names': 0.012}),
     Sub('agg', lambda tier: _agg_case(), run_agg, quick=1000, thorough=10000,
-        rule='df_sum/df_mean/df_count on 2-4 Series or 2-4 multi-column frames (column sets may differ), default policies; ' + _COMMON_RULE + 'oracle: union index, '
+        rule='df_sum/df_mean/df_count on 2-4 Series or 2-4 multi-column frames (column sets may differ), default policies left out or spelled out; ' + _COMMON_RULE + 'oracle: union index, '
              'sum/mean over the non-NaN operands, count of them, NaN (count 0) where none. non-trivial as in arith',
-        floor=0.3, class_floors={'cell_without_data': 0.3, 'cell_with_data': 0.5, 'differing_columns': 0.1, 'long': 0.06, 'fingerprint_indices': 0.05}),
+        floor=0.3, class_floors=_floors({'cell_without_data': 0.3, 'cell_with_data': 0.5, 'differing_columns': 0.1, 'long': 0.06, 'fingerprint_indices': 0.05},
+                                        numpy_scalar=None, mixed_index_units=0.03, unsorted_index=0.023, stamps_1us_apart=0.04, same_object_twice=0.035, same_object_first_and_last=0.015,
+                                        first_and_last_on_one_index_object_other_between=0.012, shared_index_object=0.03, call_written_positionally=0.027, default_policies_spelled_out=0.065,
+                                        empty_list_companion=0.012)),
 ]
